@@ -412,8 +412,11 @@ class Ctx:
         ev = dict(property_id=self.id, tier=self.tier, seed=int(self.seed), level="model_checking",
                   coverage=cov, assumptions=self.assumptions, wall_s=round(time.time() - self.t0, 2),
                   violations=nviol, known_finding_cases=nknown, repo=self.repo)
-        os.makedirs(os.path.join(VERIF, "evidence"), exist_ok=True)
-        p = os.path.join(VERIF, "evidence", "%s.json" % self.id)
+        # evidence under /verif/evidence is only ever written from runs against /repo itself
+        evdir = os.path.join(VERIF, "evidence") if os.path.realpath(self.repo) == "/repo" \
+            else os.path.join(VERIF, "evidence", "other-tree")
+        os.makedirs(evdir, exist_ok=True)
+        p = os.path.join(evdir, "%s.json" % self.id)
         tmp = p + ".tmp%d" % os.getpid()
         json.dump(ev, open(tmp, "w"), indent=1, default=str)
         os.replace(tmp, p)
